@@ -12,6 +12,7 @@ import Pandora.Gen.AmmoDec
 import Pandora.Model.C07
 import Pandora.Model.C07Heap
 import Pandora.Model.C07Go
+import Pandora.Model.C07Prov
 
 set_option linter.unusedVariables false
 set_option linter.unusedSimpArgs false
@@ -248,5 +249,30 @@ theorem json_facts :
     entityFields = [("Host", "host", "string"), ("Method", "method", "string"), ("URI", "uri", "string"),
       ("Headers", "headers", "map[string]string"), ("Tag", "tag", "string"), ("Body", "body", "string")] := by
   refine ⟨by decide, rfl⟩
+
+/-! ### round 4 — the provider side: registrations, `uris` option, delivery counters -/
+
+/-- `Import` registers the provider types `http`, `http/json`, `raw`, `uri`, `uripost`; every format's own type forces the
+decoder of that format, `http` leaves the choice to the `decoder` option (vacuous in a run where the registrations are not
+written as plain statements: then the differential runs `via=reg` / `via=http` alone tie the table) -/
+theorem registrations_eq : ∀ t, registrationsG? = some t → t = regTable := by
+  intro t h; cases h <;> decide
+
+/-- the decoder names of the config are the format names the model uses, and `IsValid` accepts exactly those -/
+theorem decoderTypes_eq :
+    decoderTypesG.map (·.2) = ["jsonline", "raw", "uri", "uripost"] ∧ validDecodersG = validDecoders := by decide
+
+/-- the `uris` option is joined with a newline: `urisFile` -/
+theorem urisSep_eq : ∀ s, urisSepG? = some s → s = [LF] := by
+  intro s h; cases h <;> decide
+
+/-- the delivery counters (index into the preloaded slice / the http/json array, the count compared with `Limit`) are
+integers of at least 63 value bits: no run reaches the point where they wrap (`C07_counter_width`; with 16 bits the
+order breaks after 65536 deliveries: `C07_counter_narrow_counterexample`) -/
+theorem counterBits_ok :
+    (∀ b, preloadIndexBits? = some b → 63 ≤ b) ∧ (∀ b, fullScanCounterBits? = some b → 63 ≤ b)
+      ∧ (∀ b, arrayIndexBits? = some b → 63 ≤ b) := by
+  refine ⟨?_, ?_, ?_⟩ <;> intro b h <;> cases h <;> decide
+
 
 end Pandora.Bridge.C07
